@@ -253,6 +253,7 @@ type metaStep struct {
 	Bulk      int         `json:"bulk"`
 	ID        int         `json:"id"`
 	After     int         `json:"after"`
+	Fail      int         `json:"fail"`
 	Name      string      `json:"name"`
 	Bundle    int         `json:"bundle"`
 	Paths     []string    `json:"paths"`
@@ -281,6 +282,9 @@ type metaRun struct {
 	anyFate  map[int]bool // bundles whose leftovers may or may not have been removed
 	modified map[int]bool // bundles whose index files were rewritten by delete-entries
 	deep     bool
+	// strictOrder: listing order is part of the verdict (C07 only)
+	strictOrder bool
+	applyToo    bool
 }
 
 func (m *metaRun) bad(sig string, exp, got interface{}, detail string) {
@@ -319,6 +323,16 @@ func (m *metaRun) doStep(st metaStep) {
 		}
 		if got != st.Res {
 			m.bad("createrepo/result", st.Res, got, "")
+		}
+	case "uploadfault":
+		src, _ := e.writeTree(st.Tree, st.Bulk)
+		b := e.newBundle(stores, st.Repo, e.ksuidFor(st.ID), src)
+		ctl.FaultStore, ctl.FaultOp, ctl.FaultAt = "meta", "put", st.Fail
+		err := core.Upload(ctx, b)
+		if !ctl.FaultFired {
+			m.bad("driver/fault-not-reached", nil, errString(err), "")
+		} else if err == nil {
+			m.bad("uploadfault/reported-success", "error", "ok", fmt.Sprintf("metadata write %d failed", st.Fail))
 		}
 	case "upload", "uploadcrash":
 		src, _ := e.writeTree(st.Tree, st.Bulk)
@@ -836,6 +850,9 @@ func (m *metaRun) observe(st metaStep) {
 		if got == nil {
 			got = []string{}
 		}
+		if !m.strictOrder {
+			got = sortedStrings(got)
+		}
 		if !vutil.EqStrings(got, sortedStrings(post.Obs.Repos)) {
 			m.bad(classifySeq("obs/listrepos", sortedStrings(post.Obs.Repos), got), sortedStrings(post.Obs.Repos), got, "")
 		}
@@ -852,6 +869,9 @@ func (m *metaRun) observe(st metaStep) {
 		}
 		expIDs := append([]int{}, l.IDs...)
 		sort.Ints(expIDs)
+		if !m.strictOrder {
+			sort.Ints(got)
+		}
 		if !eqInts(got, expIDs) {
 			m.bad(classifyInts("obs/listbundles", expIDs, got), expIDs, got, l.Repo)
 		}
@@ -909,6 +929,9 @@ func (m *metaRun) observe(st metaStep) {
 			m.bad(sig, l.ID, got, fmt.Sprintf("repo %s (%v)", l.Repo, err))
 		}
 	}
+	if m.applyToo {
+		m.observeApply(stores, post)
+	}
 	// labels
 	byRepo := map[string][]postLabel{}
 	for _, l := range post.Labels {
@@ -940,6 +963,53 @@ func (m *metaRun) observe(st metaStep) {
 			} else if e.rev[lab.Descriptor.BundleID] != l.Bundle {
 				m.bad("obs/getlabel", l.Bundle, e.rev[lab.Descriptor.BundleID], repo+"/"+l.Name)
 			}
+		}
+	}
+}
+
+// observeApply lists through the streaming *Apply variants with a slow consumer
+// and compares with the specification's operators (as sets) and page by page order.
+func (m *metaRun) observeApply(stores context2.Stores, post postState) {
+	e := m.e
+	slow := func() { time.Sleep(300 * time.Microsecond) }
+	var repos []string
+	if err := core.ListReposApply(stores, func(rd model.RepoDescriptor) error { slow(); repos = append(repos, rd.Name); return nil }, e.listOpts()...); err != nil {
+		m.bad("obs/listrepos-apply-error", "ok", err.Error(), "")
+	} else if !vutil.EqStrings(sortedStrings(repos), sortedStrings(post.Obs.Repos)) {
+		m.bad(classifySeq("obs/listrepos-apply", sortedStrings(post.Obs.Repos), sortedStrings(repos)), post.Obs.Repos, repos, "")
+	}
+	for _, l := range post.Obs.List {
+		var got []int
+		err := core.ListBundlesApply(l.Repo, stores, func(bd model.BundleDescriptor) error { slow(); got = append(got, e.rev[bd.ID]); return nil }, e.listOpts()...)
+		if err != nil {
+			m.bad("obs/listbundles-apply-error", "ok", err.Error(), l.Repo)
+			continue
+		}
+		exp := append([]int{}, l.IDs...)
+		sort.Ints(exp)
+		sort.Ints(got)
+		if !eqInts(got, exp) {
+			m.bad(classifyInts("obs/listbundles-apply", exp, got), exp, got, l.Repo)
+		}
+	}
+	byRepo := map[string][]string{}
+	for _, l := range post.Labels {
+		byRepo[l.Repo] = append(byRepo[l.Repo], fmt.Sprintf("%s=%d", l.Name, l.Bundle))
+	}
+	for _, repo := range post.Repos {
+		var got []string
+		err := core.ListLabelsApply(repo, stores, func(ld model.LabelDescriptor) error {
+			slow()
+			got = append(got, fmt.Sprintf("%s=%d", ld.Name, e.rev[ld.BundleID]))
+			return nil
+		}, e.listOpts()...)
+		if err != nil {
+			m.bad("obs/listlabels-apply-error", "ok", err.Error(), repo)
+			continue
+		}
+		exp := sortedStrings(byRepo[repo])
+		if !vutil.EqStrings(sortedStrings(got), exp) {
+			m.bad(classifySeq("obs/listlabels-apply", exp, sortedStrings(got)), exp, got, repo)
 		}
 	}
 }
@@ -1019,6 +1089,8 @@ func metaReplay(args []string) error {
 	listConc := fl.Int("list-conc", 0, "listing concurrency")
 	deep := fl.Bool("deep", true, "download metadata of every listed bundle after every step")
 	finalDownload := fl.Bool("final-download", true, "download every visible bundle at the end")
+	strictOrder := fl.Bool("strict-order", false, "listing order is part of the verdict")
+	applyToo := fl.Bool("apply", false, "also list through the streaming Apply variants with a slow consumer")
 	_ = fl.Parse(args)
 	res := vutil.NewResult("meta")
 	run := func(i int, line []byte, r *vutil.BehResult) {
@@ -1033,7 +1105,7 @@ func metaReplay(args []string) error {
 		defer os.RemoveAll(wdir)
 		e := newMetaEnv(wdir, *lambda, *seed, *crc)
 		e.conc, e.batch, e.listConc = *conc, *batch, *listConc
-		m := &metaRun{e: e, r: r, line: line, anyFate: map[int]bool{}, modified: map[int]bool{}, deep: *deep}
+		m := &metaRun{e: e, r: r, line: line, anyFate: map[int]bool{}, modified: map[int]bool{}, deep: *deep, strictOrder: *strictOrder, applyToo: *applyToo}
 		muts := 0
 		for j, st := range steps {
 			m.stepIdx, m.op = j, st.Op
@@ -1094,6 +1166,8 @@ func compactSteps(steps []metaStep) interface{} {
 	var out []string
 	for _, s := range steps {
 		switch s.Op {
+		case "uploadfault":
+			out = append(out, fmt.Sprintf("uploadfault(%s,#%d,bulk=%d,failing-write=%d)", s.Repo, s.ID, s.Bulk, s.Fail))
 		case "uploadkeys":
 			out = append(out, fmt.Sprintf("uploadkeys(%s,#%d,keys=%v,skip=%v)=%s", s.Repo, s.ID, s.Keys, s.Skip, s.Res))
 		case "update":
